@@ -63,10 +63,18 @@ func VerifC12_String(cs int) {
 
 // VerifC12_Date: date similarity on two symbolic valid dates. cs: granularity a = cs%3, b = cs/3%3,
 // maxYears default (cs/9 == 0) or symbolic in (0, 1000].
+var vC12DateCases = [][3]int{
+	// granularity of a, of b (0 day, 1 month, 2 year), symbolic maxYears; the first five are the quick tier
+	{2, 2, 0}, {1, 1, 0}, {0, 0, 0}, {2, 0, 0}, {2, 2, 1},
+	{0, 1, 0}, {0, 2, 0}, {1, 0, 0}, {1, 2, 0}, {2, 1, 0},
+	{0, 0, 1}, {0, 1, 1}, {0, 2, 1}, {1, 0, 1}, {1, 1, 1}, {1, 2, 1}, {2, 0, 1}, {2, 1, 1},
+}
+
 func VerifC12_Date(cs int) {
-	da, db := VNewDate("a", cs%3), VNewDate("b", cs/3%3)
+	c := vC12DateCases[cs%len(vC12DateCases)]
+	da, db := VNewDate("a", c[0]), VNewDate("b", c[1])
 	maxYears := DefaultMaxYearsForSimilarity
-	if cs/9%2 == 1 {
+	if c[2] == 1 {
 		maxYears = VsFloat("maxYears", 0.001, 1000)
 	}
 	ra, rb := NewDateRange(da.Date(), da.Date()), NewDateRange(db.Date(), db.Date())
@@ -88,7 +96,9 @@ func VerifC12_Date(cs int) {
 
 // VerifC12_DateMonotone: similarity never increases as the distance in years grows (three dates).
 func VerifC12_DateMonotone(cs int) {
-	da, db, dc := VNewDate("a", 2), VNewDate("b", cs%3), VNewDate("c", cs/3%3)
+	// cases ordered so that the first two (year/year, month/year) are the quick tier
+	g := [][2]int{{2, 2}, {1, 2}, {0, 2}, {2, 1}, {1, 1}, {0, 1}, {2, 0}, {1, 0}, {0, 0}}[cs%9]
+	da, db, dc := VNewDate("a", 2), VNewDate("b", g[0]), VNewDate("c", g[1])
 	ra, rb, rc := NewDateRange(da.Date(), da.Date()), NewDateRange(db.Date(), db.Date()), NewDateRange(dc.Date(), dc.Date())
 	ya, yb, yc := ra.Years(), rb.Years(), rc.Years()
 	dab, dac := ya-yb, ya-yc
